@@ -5,6 +5,7 @@ mod util;
 mod c09;
 mod c05;
 mod c16;
+mod c01;
 
 use util::Out;
 
@@ -23,6 +24,7 @@ fn main() {
         "C09" => c09::run(&mut out),
         "C05" => c05::run(&mut out),
         "C16" => c16::run(&mut out),
+        "C01" => c01::run(&mut out),
         _ => {
             eprintln!("unknown property {prop}");
             std::process::exit(2);
